@@ -919,6 +919,24 @@ func genStorm(master uint64, idx int) *History {
 		}
 		h.Ops = append(h.Ops, HOp{Kind: "search", Obj: 0, Doc: 0}, HOp{Kind: "oneshot", Expr: 0, Doc: 0}, HOp{Kind: "search", Obj: 0, Doc: 1})
 	}
+	// variant B (one storm in three): an expression is searched one-shot, then more than
+	// 128 / 256 / 512 / 1024 / 2048 OTHER distinct expressions are, then the first one again
+	// (bounded caches behind the one-shot API: eviction that forgets to unlink)
+	if r.Chance(1, 3) {
+		first := r.Pick([]string{"nums[0]", "objs[0].k", "s", "o1.a", "length(strs)", "n"})
+		h.Exprs = append(h.Exprs, first)
+		fi := len(h.Exprs) - 1
+		h.Ops = append(h.Ops, HOp{Kind: "oneshot", Expr: fi, Doc: 0})
+		m := []int{130, 260, 520, 1030, 1100, 2060}[r.Intn(6)]
+		for i := 0; i < m; i++ {
+			h.Exprs = append(h.Exprs, fmt.Sprintf("[`%d`, nums[%d]]", i, i%7))
+			h.Ops = append(h.Ops, HOp{Kind: "oneshot", Expr: len(h.Exprs) - 1, Doc: 0})
+			if i%257 == 100 {
+				h.Ops = append(h.Ops, HOp{Kind: "oneshot", Expr: fi, Doc: 0})
+			}
+		}
+		h.Ops = append(h.Ops, HOp{Kind: "oneshot", Expr: fi, Doc: 0}, HOp{Kind: "oneshot", Expr: fi + 1, Doc: 0}, HOp{Kind: "oneshot", Expr: fi + 2, Doc: 1})
+	}
 	// the same for the parser: k identical failing parses, then valid ones
 	src := gen.Expr(r)
 	broken, _ := corruptExpr(r, src)
